@@ -1,12 +1,217 @@
 /-
   C11 — node outputs are never stale; nodes recompute only when an input changed; version +1 per
-  execution.  Property theorems only (model: PolyVerif/Model/Nodes.lean, lemmas: Lemmas/Nodes.lean).
+  execution.  Property theorems only.
+  Model: PolyVerif/Model/Nodes.lean (mirrors /repo/nodes/struct_node.go, value_node.go,
+  generator/parameter/value.go).  Lemmas: PolyVerif/Lemmas/Nodes*.lean.
+
+  All theorems are for an arbitrary value type `V`, arbitrary processor functions `fn`, every graph
+  `g0` satisfying the guard `Init` (acyclic numbering: each dependency has a smaller id; nothing
+  processed yet) and EVERY history `ops : List (Op V)` of parameter updates, scalar re-wirings,
+  array add/remove and reads of arbitrary nodes (rejected calls included; they leave the state alone).
 -/
-import PolyVerif.Lemmas.Nodes
+import PolyVerif.Lemmas.NodesOps
 
 namespace PolyVerif
 namespace C11
 open Nodes
+variable {V : Type}
+
+/-- the states the API can produce -/
+def Reachable (g : Graph V) : Prop := ∃ g0 ops, Init g0 ∧ g = (run g0 ops).1
+
+/-- the ghost-free inductive invariant (I1 ∧ I2 ∧ guard) holds in every reachable state -/
+theorem reachable_inv {g : Graph V} (h : Reachable g) : Inv g := by
+  obtain ⟨g0, ops, h0, rfl⟩ := h
+  exact run_inv h0.inv ops
+
+/-- `Spec` is evaluation from scratch: it satisfies (and, ids being well-founded, is determined by)
+    the recursive equation that mentions only parameter values, processors and wiring -/
+theorem spec_is_from_scratch (g : Graph V) (hwf : WF g) (i : Nat) :
+    Spec g i = match g i with
+      | .param x _ => x
+      | .struct s => s.fn s.scalars s.arrays (s.deps.map (Spec g)) :=
+  Spec_eq g hwf i
+
+/-- **never stale**: after any history, `Value()` of any node returns the from-scratch value of
+    the current graph -/
+theorem read_fresh (g0 : Graph V) (h0 : Init g0) (ops : List (Op V)) (i : Nat) :
+    val (step (run g0 ops).1 (.read i)).1 i = Spec (run g0 ops).1 i := by
+  have hinv := run_inv h0.inv ops
+  rw [step_read]
+  have hok := Eval_ok i _ hinv
+  rw [val_eq_spec hok.inv hok.fresh, Spec_static hinv.wf hok.evo.static]
+
+/-- in every reachable state, every node that reports `Processed` holds the from-scratch value
+    (so a read that does not execute is fresh as well) -/
+theorem processed_is_fresh (g0 : Graph V) (h0 : Init g0) (ops : List (Op V)) (j : Nat)
+    (hj : Outdated (run g0 ops).1 j = false) : val (run g0 ops).1 j = Spec (run g0 ops).1 j :=
+  val_eq_spec (run_inv h0.inv ops) hj
+
+/-- evaluation changes no parameter, processor or wiring, and only nodes that were outdated (I3) -/
+theorem eval_frame (g0 : Graph V) (h0 : Init g0) (ops : List (Op V)) (i : Nat) :
+    SameStatic (step (run g0 ops).1 (.read i)).1 (run g0 ops).1 ∧
+    (∀ k, Outdated (run g0 ops).1 k = false → (step (run g0 ops).1 (.read i)).1 k = (run g0 ops).1 k) ∧
+    (∀ e ∈ (step (run g0 ops).1 (.read i)).2, Reach (run g0 ops).1 i e.1) := by
+  have hinv := run_inv h0.inv ops
+  rw [step_read]
+  have hok := Eval_ok i _ hinv
+  exact ⟨hok.evo.static, hok.evo.keep, hok.logCone⟩
+
+/-- **a second read executes nothing** (and changes nothing) -/
+theorem reads_idempotent (g0 : Graph V) (h0 : Init g0) (ops : List (Op V)) (i : Nat) :
+    step (step (run g0 ops).1 (.read i)).1 (.read i) = ((step (run g0 ops).1 (.read i)).1, []) := by
+  have hinv := run_inv h0.inv ops
+  rw [step_read, step_read]
+  have hok := Eval_ok i _ hinv
+  rw [Eval_eq _ hok.inv.wf]
+  cases hs : (Eval (run g0 ops).1 i).1 i with
+  | param x v => rfl
+  | struct s => simp [hok.fresh]
+
+/-- a node executes during a read only if it was outdated, and it is processed afterwards -/
+theorem exec_only_if_outdated (g0 : Graph V) (h0 : Init g0) (ops : List (Op V)) (i : Nat)
+    (e : Nat × Nat) (he : e ∈ (step (run g0 ops).1 (.read i)).2) :
+    Outdated (run g0 ops).1 e.1 = true ∧ Outdated (step (run g0 ops).1 (.read i)).1 e.1 = false := by
+  have hinv := run_inv h0.inv ops
+  rw [step_read] at he ⊢
+  exact ⟨((Eval_ok i _ hinv).logOut e he).1, executed_fresh hinv i e he⟩
+
+/-- **recompute only on change**: once node `j` is processed (in particular right after it
+    executed), no history that neither updates a parameter in `j`'s dependency cone nor re-wires a
+    node of that cone (`j` itself included) executes `j` again, whatever is read, and `j` stays
+    processed -/
+theorem exec_only_if_changed (g0 : Graph V) (h0 : Init g0) (ops : List (Op V)) (j : Nat)
+    (hj : Outdated (run g0 ops).1 j = false) (ops2 : List (Op V)) (hq : Untouched (run g0 ops).1 ops2 j) :
+    cnt (run (run g0 ops).1 ops2).2 j = 0 ∧ Outdated (run (run g0 ops).1 ops2).1 j = false := by
+  have := untouched_run (run_inv h0.inv ops) hj ops2 hq
+  exact ⟨this.2, this.1⟩
+
+/-- the same, from execution to execution: if `j` executed in a read and the following history
+    `ops2` (any reads included) does not touch `j`'s cone, `j` does not execute in `ops2` -/
+theorem reexecution_needs_change (g0 : Graph V) (h0 : Init g0) (ops : List (Op V)) (i j : Nat)
+    (hex : 0 < cnt (step (run g0 ops).1 (.read i)).2 j) (ops2 : List (Op V))
+    (hq : Untouched (step (run g0 ops).1 (.read i)).1 ops2 j) :
+    cnt (run (step (run g0 ops).1 (.read i)).1 ops2).2 j = 0 := by
+  have hinv := run_inv h0.inv ops
+  obtain ⟨e, he, hej⟩ := cnt_pos_mem hex
+  have hf := (exec_only_if_outdated g0 h0 ops i e he).2
+  rw [hej] at hf
+  exact (untouched_run (step_inv hinv _) hf ops2 hq).2
+
+/-- **version = number of executions**: along every history the version of every node grows by
+    exactly the number of its executions in the log plus, for a parameter, the number of accepted
+    updates — and by nothing else -/
+theorem version_counts_executions (g0 : Graph V) (h0 : Init g0) (ops : List (Op V)) (k : Nat) :
+    ver (run g0 ops).1 k = ver g0 k + cnt (run g0 ops).2 k + setCount g0 ops k :=
+  version_run h0.inv ops k
+
+/-- for a struct node the version counts its executions and nothing else -/
+theorem struct_version_counts_executions (g0 : Graph V) (h0 : Init g0) (ops : List (Op V)) (k : Nat)
+    (s : SNode V) (hk : g0 k = .struct s) :
+    ver (run g0 ops).1 k = s.version + cnt (run g0 ops).2 k := by
+  rw [version_run h0.inv ops k, setCount_struct h0.inv ops k (by simp [hk, isParam])]
+  simp [ver, hk]
+
+/-- one step: +1 per execution, +1 for an accepted `Set` of that parameter, otherwise unchanged -/
+theorem version_step_exact (g0 : Graph V) (h0 : Init g0) (ops : List (Op V)) (op : Op V) (k : Nat) :
+    ver (step (run g0 ops).1 op).1 k
+      = ver (run g0 ops).1 k + cnt (step (run g0 ops).1 op).2 k + bumps (run g0 ops).1 op k :=
+  version_step (run_inv h0.inv ops) op k
+
+/-- the index `sn.depVersions[i]` in `Outdated()` never panics: whenever the flag is clear the
+    remembered list has one entry per dependency (and each is `≤` the dependency's version) -/
+theorem remembered_length (g0 : Graph V) (h0 : Init g0) (ops : List (Op V)) (i : Nat) (s : SNode V)
+    (rv : List Nat) (hs : (run g0 ops).1 i = .struct s) (hr : s.remembered = some rv) (hf : s.flag = false) :
+    rv.length = s.deps.length ∧ All2 (fun d r => r ≤ ver (run g0 ops).1 d) s.deps rv := by
+  have h := (run_inv h0.inv ops).rem i s rv hs hr hf
+  exact ⟨h.length_eq.symm, h⟩
+
+/-- the guard is preserved: the model never creates a dependency on a node with a larger id -/
+theorem wf_preserved (g0 : Graph V) (h0 : Init g0) (ops : List (Op V)) : WF (run g0 ops).1 :=
+  (run_inv h0.inv ops).wf
+
+/-! ### the pre-2752e26 defect: dependencies enumerated in map order -/
+
+/-- with an enumeration that may be permuted between calls, a node that has just executed
+    (remembered versions = current versions, in the order of that call) is reported outdated by
+    the very next `Outdated()` although nothing changed: closed witness with two parameter
+    dependencies at versions 1 and 2 -/
+theorem permuted_deps_spurious :
+    ∃ (g : Graph Nat) (s : SNode Nat) (ds ds' : List Nat),
+      ds'.Perm ds ∧ s.flag = false ∧ s.remembered = some (ds.map (ver g)) ∧
+      outdatedEnum g s ds = false ∧ outdatedEnum g s ds' = true := by
+  refine ⟨fun j => .param 0 (j + 1),
+    { fn := fun _ _ _ => 0, scalars := [some 0, some 1], arrays := [], cache := 0, version := 1,
+      remembered := some [1, 2], flag := false }, [0, 1], [1, 0], List.Perm.swap _ _ _, rfl, rfl, ?_, ?_⟩
+  · simp [outdatedEnum, mismatch, ver]
+  · simp [outdatedEnum, mismatch, ver]
+
+/-- with the sorted (stable) enumeration the same situation is not outdated: for parameter
+    dependencies, remembering the current versions in enumeration order gives "not outdated" -/
+theorem stable_deps_not_spurious (g : Graph V) (s : SNode V) (ds : List Nat)
+    (hr : s.remembered = some (ds.map (ver g))) (hf : s.flag = false) : outdatedEnum g s ds = false := by
+  simp [outdatedEnum, hr, hf, mismatch_map_ver]
+
+/-! ### non-vacuity: a diamond over two parameters with a shared node and an array port -/
+
+def sum3 : List (Option Nat) → List (List Nat) → List Nat → Nat := fun _ _ vs => vs.foldl (· + ·) 1
+
+def mk (sc : List (Option Nat)) (ar : List (List Nat)) : Node Nat :=
+  .struct { fn := sum3, scalars := sc, arrays := ar, cache := 0, version := 0, remembered := none, flag := false }
+
+/-- 0,1 parameters; 2 = f(0,1); 3 = f(2, nil); 4 = f(2,3 ; [0,2]) -/
+def diamond : Graph Nat := fun i =>
+  match i with
+  | 0 => .param 5 0
+  | 1 => .param 7 0
+  | 2 => mk [some 0, some 1] []
+  | 3 => mk [some 2, none] []
+  | 4 => mk [some 2, some 3] [[0, 2]]
+  | _ => .param 0 0
+
+theorem diamond_init : Init diamond := by
+  constructor
+  · intro i s hs d hd
+    match i with
+    | 0 | 1 => simp [diamond] at hs
+    | 2 | 3 | 4 =>
+      simp only [diamond, mk, Node.struct.injEq] at hs
+      subst hs
+      simp [SNode.deps] at hd
+      omega
+    | n+5 => simp [diamond] at hs
+  · intro i s hs
+    match i with
+    | 0 | 1 => simp [diamond] at hs
+    | 2 | 3 | 4 =>
+      simp only [diamond, mk, Node.struct.injEq] at hs
+      subst hs
+      rfl
+    | n+5 => simp [diamond] at hs
+
+def history : List (Op Nat) :=
+  [.read 4, .setParam 0 9, .read 3, .setInput 3 1 (some 1), .arrayRemove 4 0 0, .read 4, .arrayAdd 4 0 3, .read 4]
+
+example : val (step (run diamond history).1 (.read 4)).1 4 = Spec (run diamond history).1 4 :=
+  read_fresh diamond diamond_init history 4
+
+example : (run diamond history).2 = [(2, 1), (3, 1), (4, 1), (2, 2), (3, 2), (3, 3), (4, 2), (4, 3)] := by decide
+
+example : Spec (run diamond history).1 4 = 85 := by decide
+
+/-- hypotheses of `exec_only_if_changed` on a concrete instance: node 3 is processed after reading
+    it; re-wiring node 4 and reading 2 and 4 does not touch the cone {3,2,0,1} of node 3 -/
+example : Outdated (run diamond [.read 3]).1 3 = false := by decide
+
+example : Untouched (run diamond [.read 3]).1 [.arrayAdd 4 0 1, .read 4, .setInput 4 0 none, .read 2, .read 4] 3 := by
+  apply untouched_of_above (run_inv diamond_init.inv _)
+  intro op hop
+  simp only [List.mem_cons, List.not_mem_nil, or_false] at hop
+  rcases hop with rfl | rfl | rfl | rfl | rfl <;> simp [opNode]
+
+/-- and indeed node 3 is not executed by that history, while node 4 is (twice) -/
+example : (run (run diamond [.read 3]).1 [.arrayAdd 4 0 1, .read 4, .setInput 4 0 none, .read 2, .read 4]).2
+    = [(4, 1), (4, 2)] := by decide
 
 end C11
 end PolyVerif
